@@ -194,23 +194,31 @@ def c12(raw, outp):
             obs = []        # [component, input id, output id]
             worst_grid = 0
             oks = []
+            params_exact = True     # the parameters stored in the stream are the caller's, bit for bit (read with the transform skipped)
             for t in tiles:
-                oks.append(bool(t["eok"] and t["dok"]))
+                oks.append(bool(t["eok"] and t["dok"] and t.get("other_skip_ok", True)))
                 if not (t["eok"] and t["dok"]):
                     continue
-                for i, p in enumerate(t["x"]):
-                    for c in range(3):
-                        xb, db = p[c], t["xd"][i][c]
-                        obs.append([c, xid.setdefault((c, xb), len(xid)), did.setdefault((c, db), len(did))])
-                        d = frac(db)
-                        if d is None:
-                            worst_grid = CAP
-                            continue
-                        k = round((d - lo[c]) / step)
-                        dist = abs(d - (lo[c] + k * step))
-                        worst_grid = max(worst_grid, floor_u(dist, unit))
+                if t["skipok"]:
+                    if t["bits"] != q or t["srange"] != sc["range"] or list(t["min"]) != list(sc["origin"]):
+                        params_exact = False
+                # "xd": plain decode; "xd2": the same stream decoded with an unrelated attribute's transform skipped
+                for key in ("xd", "xd2"):
+                    if not t.get(key):
+                        continue
+                    for i, p in enumerate(t["x"]):
+                        for c in range(3):
+                            xb, db = p[c], t[key][i][c]
+                            obs.append([c, xid.setdefault((c, xb), len(xid)), did.setdefault((c, db), len(did))])
+                            d = frac(db)
+                            if d is None:
+                                worst_grid = CAP
+                                continue
+                            k = round((d - lo[c]) / step)
+                            dist = abs(d - (lo[c] + k * step))
+                            worst_grid = max(worst_grid, floor_u(dist, unit))
             rec = {"e": "Explicit", "sc": sc["sc"], "q": q, "representable": sc["representable"], "tiles_ok": oks, "methods": [t["m"] for t in tiles],
-                   "obs": obs, "worst_grid_u": worst_grid, "allow_u": ceil_u(allow, unit)}
+                   "obs": obs, "worst_grid_u": worst_grid, "allow_u": ceil_u(allow, unit), "params_exact": params_exact}
             out.write(json.dumps(rec) + "\n")
             n += 1
 
